@@ -82,10 +82,36 @@ def objective_body(kind):
             elif kind == "parameter_max":
                 meas = ao.MaximizeMeasurable("ret", t=2000.5)
                 want = sum((p.par_lookup["ret"].vals[2] for p in m.pops[1:]), m.pops[0].par_lookup["ret"].vals[2])
-            val = meas.get_objective_val(m, None)
-            ev = meas.eval(m, None)
+            elif kind in ("spending", "spending_default"):
+                # the measurable names a program: the objective is the spending the run uses at the simulation times of the
+                # period - an instructions overwrite holds its value until the next overwrite point (ProgramSet.get_alloc),
+                # a program without an overwrite spends what the program book says
+                from checks import C13 as c13
+
+                progset, psym, _ = c13.make_progset(env, P, "additive", pops)
+                a, b = env.real("alloc|Ptest|2000", 0, 1e6), env.real("alloc|Ptest|2000.75", 0, 1e6)
+                with env.installed(shim.patches_for(ap, au)):
+                    m.progset = progset
+                    m.program_instructions = ap.ProgramInstructions(start_year=2000.0, alloc={"Ptest": au.TimeSeries(t=[2000.0, 2000.75], vals=[a, b])})
+                if kind == "spending":
+                    meas = ao.Measurable("Ptest", t=[2000.0, 2001.0], weight=0.5)
+                    want = a + a + a + b
+                else:
+                    meas = ao.Measurable("Ptreat", t=[2000.25, 2000.75])
+                    want = psym["Ptreat"]["spend"] + psym["Ptreat"]["spend"]
+            if kind.startswith("spending"):
+                with env.installed(shim.patches_for(ap, au)):
+                    val = meas.get_objective_val(m, None)
+                    ev = meas.eval(m, None)
+            else:
+                val = meas.get_objective_val(m, None)
+                ev = meas.eval(m, None)
             opt = ao.Optimization(name="o", adjustments=[], measurables=[meas, ao.Measurable("dx", t=2000.0, weight=3.0)], constraints=None)
-            total = opt.compute_objective(m, [None, None])
+            if kind.startswith("spending"):
+                with env.installed(shim.patches_for(ap, au)):
+                    total = opt.compute_objective(m, [None, None])
+            else:
+                total = opt.compute_objective(m, [None, None])
         env.claim("objective_is_documented_sum", env.eq(val, want), key="objective[%s]" % kind)
         env.claim("eval_applies_weight", env.eq(ev, meas.weight * want), key="weight")
         other = 0.0
@@ -399,7 +425,7 @@ def _funcs():
 
 
 def specs(tier):
-    out = [("objective[%s]" % k, objective_body, dict(kind=k), ()) for k in ("single_year", "range", "pop_selection", "flow", "parameter_max")]
+    out = [("objective[%s]" % k, objective_body, dict(kind=k), ()) for k in ("single_year", "range", "pop_selection", "flow", "parameter_max", "spending", "spending_default")]
     out += [("threshold[at most]", threshold_body, dict(at_most=True), ()), ("threshold[at least]", threshold_body, dict(at_most=False), ())]
     for inc in (True, False):
         for tt in ("frac", "abs"):
